@@ -346,8 +346,26 @@ impl Pool {
         // one, the oracle is resynchronised from the crate's text instead of running the call.
         let failed = res.cls == "err" && res.msg == "reserve" || (res.cls == "panic" && res.msg == "reserve");
         if failed {
+            // text unchanged is what the oracle says; iterator-driven calls may have applied a
+            // prefix of their items: adopt the crate's text only if it is such a prefix
             let h = op.h - 1;
-            self.ss[h] = self.ls[h].as_ref().map(|s| s.as_str().to_string());
+            if op.op == "extend" {
+                if let (Some(old), Some(cur)) = (self.ss[h].clone(), self.ls[h].as_ref()) {
+                    let items = items_of(&op.x);
+                    let mut t = old.clone().into_bytes();
+                    let mut found = cur.as_bytes() == &t[..];
+                    for it in &items {
+                        if found {
+                            break;
+                        }
+                        t.extend_from_slice(it);
+                        found = cur.as_bytes() == &t[..];
+                    }
+                    if found {
+                        self.ss[h] = Some(String::from_utf8(t).unwrap());
+                    }
+                }
+            }
             res.scls = "skipped".into();
         } else {
             let so = {
